@@ -238,6 +238,26 @@ func (g *Gen) HeaderFor(r *FnResult) string {
 				}
 				toks := symTokens(a)
 				hit := false
+				if k, keyed := g.axiomKey[a]; keyed {
+					// keyed axiom: only for VCs that mention the key symbol
+					if used[k] {
+						used[key] = true
+						changed = true
+						for t := range toks {
+							used[t] = true
+						}
+						if note := g.axiomNote[a]; note != "" {
+							dup := false
+							for _, x := range r.Assumed {
+								dup = dup || x == note
+							}
+							if !dup {
+								r.Assumed = append(r.Assumed, note)
+							}
+						}
+					}
+					continue
+				}
 				for _, n := range g.ufOrder {
 					if toks[n] && used[n] {
 						hit = true
